@@ -56,6 +56,22 @@ Lemma w_trail_fails : wf_units w_trail = true /\ names_unambiguous w_trail = fal
   /\ format_short_int w_trail 5 = "5s " /\ parse_units_int w_trail (format_short_int w_trail 5) = None.
 Proof. vm_compute. repeat split; reflexivity. Qed.
 
+(* (d') the Unicode twin: a name ending in a NO-BREAK SPACE (U+00A0 = C2 A0) is cut by TrimSpace just the same, although
+   the regular expression's \s would never match it: "5x<NBSP>" is rejected.  (Before work package s8u the model trimmed
+   ASCII white space only and names_unambiguous held for this definition.)  A name that STARTS with or CONTAINS the
+   character is harmless: it is matched literally. *)
+Definition nbsp : string := String (ascii_of_nat 194) (String (ascii_of_nat 160) EmptyString).
+Definition w_trail_nbsp : units := mkUnits (mkUnit ("x" ++ nbsp) ("x" ++ nbsp) "ex" "exes") [].
+Lemma w_trail_nbsp_fails : wf_units w_trail_nbsp = true /\ names_unambiguous w_trail_nbsp = false
+  /\ format_short_int w_trail_nbsp 5 = "5x" ++ nbsp /\ parse_units_int w_trail_nbsp (format_short_int w_trail_nbsp 5) = None.
+Proof. vm_compute. repeat split; reflexivity. Qed.
+Definition w_inner_nbsp : units :=
+  mkUnits (mkUnit (nbsp ++ "x") ("x" ++ nbsp ++ "y") "ex" "exes") [(60, mkUnit "m" "m" "minute" "minutes")].
+Lemma w_inner_nbsp_ok : wf_units w_inner_nbsp = true /\ names_unambiguous w_inner_nbsp = true
+  /\ format_short_int w_inner_nbsp 61 = "1m1" ++ nbsp ++ "x" /\ parse_units_int w_inner_nbsp (format_short_int w_inner_nbsp 61) = Some 61
+  /\ parse_units_int w_inner_nbsp (format_short_int w_inner_nbsp 65) = Some 65.
+Proof. vm_compute. repeat split; reflexivity. Qed.
+
 (* (e) a name starting with a point and a digit: "3.5x" is read as a fraction of the base unit *)
 Definition w_dot : units :=
   mkUnits (mkUnit "x" "x" "ex" "exes") [(60, mkUnit ".5x" ".5x" "minute" "minutes")].
@@ -69,6 +85,14 @@ Definition w_point : units :=
 Lemma w_point_fails : wf_units w_point = true /\ names_unambiguous w_point = false
   /\ format_short_int w_point 303 = "5.3s" /\ parse_units_int w_point (format_short_int w_point 303) = None.
 Proof. vm_compute. repeat split; reflexivity. Qed.
+
+Theorem roundtrip_unicode_trail_refuted :
+  exists u n, wf_units u = true /\ 0 <= n <= max_i64 /\ names_unambiguous u = false
+    /\ parse_units_int u (format_short_int u n) = None /\ parse_units_int u (format_long_int u n) = Some n.
+Proof.
+  exists w_trail_nbsp, 5. split; [vm_compute; reflexivity|]. split; [vm_compute; split; discriminate|].
+  vm_compute. repeat split; reflexivity.
+Qed.
 
 (* the unrestricted statement is false in the faithful model (and in the SDK) *)
 Theorem roundtrip_arbitrary_refuted :
